@@ -33,6 +33,27 @@ fn adjust(s: &mut TypeSpec, d: &mut Dna) -> bool {
             }
         }
     }
+    // the same target type under another spelling in a later variant: all variants must agree on the type, not on its tokens
+    if s.kind == Kind::Enum && s.variants.len() >= 2 {
+        for vi in 1..s.variants.len() {
+            for t in [Tr::Deref, Tr::DerefMut] {
+                if !s.has(t) || s.variants[vi].fields.is_empty() || !d.chance(30) {
+                    continue;
+                }
+                let k = designated(&s.variants[vi], t);
+                let f = &mut s.variants[vi].fields[k];
+                let re = match f.ty.src.as_str() {
+                    "u8" | "i16" | "u64" | "bool" | "char" | "u32" | "i64" | "u16" => format!("::core::primitive::{}", f.ty.src),
+                    "String" => "::std::string::String".to_string(),
+                    "Vec<u8>" => "::std::vec::Vec<u8>".to_string(),
+                    "Option<u8>" => "::core::option::Option<u8>".to_string(),
+                    _ => continue,
+                };
+                f.ty.src = re.clone();
+                f.ty.inst = re;
+            }
+        }
+    }
     true
 }
 
@@ -139,6 +160,9 @@ pub fn render(s: &TypeSpec) -> Option<Rendered> {
     }
     if s.all_fields().any(|f| f.ty.refs > 1) {
         classes.push("double_reference_field".to_string());
+    }
+    if s.all_fields().any(|f| f.ty.src.starts_with("::core::") || f.ty.src.starts_with("::std::")) {
+        classes.push("target_type_spelled_differently_in_a_later_variant".to_string());
     }
     Some(Rendered { observer: o, nontrivial: multi_target || not_first || differs, need_tallies: vec!["derefs"], classes })
 }
